@@ -182,8 +182,9 @@ class Effects:
                     for tt in ([t] if not isinstance(t, (ast.Tuple, ast.List)) else t.elts):
                         if isinstance(tt, (ast.Subscript, ast.Attribute)):
                             hit(tt.value, n, f"store `{norm(tt)} = ...`")
-                            if isinstance(n, ast.AugAssign) and isinstance(n.op, (ast.Add, ast.BitOr, ast.BitAnd, ast.Sub, ast.BitXor)):
-                                # x[k] += [...] extends the list stored at x[k] in place (and then stores it back)
+                            if isinstance(n, ast.AugAssign) and isinstance(n.op, (ast.Add, ast.BitOr)):
+                                # x[k] += [...] extends the list stored at x[k] in place (and then stores it back); `&=`/`-=` are left out: on the flags and
+                                # counters this code base keeps in tables they rebind an immutable value
                                 hit(tt, n, f"augmented assignment `{norm(n)[:70]}`")
                         elif isinstance(n, ast.AugAssign) and isinstance(tt, ast.Name):
                             # x += [...] mutates a list in place
@@ -232,7 +233,7 @@ class Effects:
                         if pname in bound:
                             seen_roots = set()
                             for s_ in sites:
-                                rk = s_.root[:3]
+                                rk = (s_.root[:3], id(s_.root[3]))   # one entry per primitive write, not per function
                                 if rk in seen_roots:
                                     continue
                                 seen_roots.add(rk)
